@@ -92,6 +92,17 @@ C06_CASES = {
 }
 
 
+C14_CASES = {
+    ("C14", "undefined-module-variable", "51a972c"):
+        [("try", [("print", V("later"))], [("e", None, [("print", ("call", ("prop", ("call", ("prop", V("e"), "cls"), []), "name"), []))])]),
+         ("let", "later", N(1)), ("print", V("later"))],
+    ("C14", "zero-keys", "00451eb"):
+        [("let", "a", ("un", "-", N(0))), ("let", "b", N(0)), ("print", ("bin", "==", V("a"), V("b"))),
+         ("let", "m", ("map", [])), ("expr", ("assign", ("index", V("m"), V("a")), N(1))),
+         ("print", ("call", ("prop", V("m"), "has"), [V("b")])), ("print", ("index", V("m"), V("b"))),
+         ("print", ("call", ("prop", ("list", [V("a")]), "has"), [V("b")]))],
+}
+
 TEXT_CASES = {
     ("C15", "loop-depth-underflow-fn-signature", "bd16179"): "while true { fn f() }",
     ("C15", "loop-depth-underflow-method-signature", "bd16179"): "let i=0; while i < 3 { class B { bar() let { 1 } } }",
@@ -103,6 +114,9 @@ TEXT_CASES = {
 
 
 def main():
+    for (pid, name, commit), prog in C14_CASES.items():
+        write(pid, name, commit, (("gen", "regression", prog), 0))
+        write(pid, name + "-rel", commit, (("gen", "regression", prog), 1))
     for (pid, name, commit), text in TEXT_CASES.items():
         write(pid, name, commit, ("text", text))
     for (pid, name, commit), prog in C06_CASES.items():
